@@ -142,7 +142,11 @@ Example C08_single_characters_nonvacuous :
   In 233 c08_alphabet /\ In PBraces schemes /\ In sls_macros policies /\
   encode_builtin false PBraces UKeep [233] = EncOk (lit "\'e") /\
   roundtrip PBraces sls_macros [233] = Some [233].
-Proof. exact ex_single. Qed.
+Proof.
+  split; [apply mem_N_In; vm_compute; reflexivity|].
+  split; [left; reflexivity|]. split; [left; reflexivity|].
+  split; vm_compute; reflexivity.
+Qed.
 
 (** backslash then "A": [{\textbackslash}A] under 'braces' (the control word
     must not swallow the letter), [\textbackslash{}A] under 'braces-after-macro';
@@ -158,7 +162,19 @@ Example C08_class_pairs_nonvacuous :
   roundtrip PNone sls_macros [92; 65] <> Some [92; 65] /\
   (* the ligature exclusion is needed *)
   has_ligature [45; 45] = true /\ roundtrip PBraces sls_macros [45; 45] <> Some [45; 45].
-Proof. exact ex_pairs. Qed.
+Proof.
+  split; [apply (proj1 (mem_N_In 92 representatives)); vm_compute; reflexivity|].
+  split; [apply (proj1 (mem_N_In 65 representatives)); vm_compute; reflexivity|].
+  split; [apply (proj1 (mem_N_In 192 representatives)); vm_compute; reflexivity|].
+  split; [vm_compute; reflexivity|].
+  split; [vm_compute; reflexivity|].
+  split; [vm_compute; reflexivity|].
+  split; [vm_compute; reflexivity|].
+  split; [vm_compute; reflexivity|].
+  split; [vm_compute; discriminate|].
+  split; [vm_compute; reflexivity|].
+  vm_compute; discriminate.
+Qed.
 
 Print Assumptions C08_alphabet_is_table.
 Print Assumptions C08_alphabet_spec.
